@@ -47,7 +47,9 @@ func checkC19(c *Check) {
 			okC := len(cc) == 1 && strings.Contains(cc[0], msgP+".Cred == nil") && strings.HasPrefix(cc[0], "¬")
 			c.Cond(okC && strings.HasSuffix(describe(creds.Common().Args[0]), msgP+".Cred"), "1/send-ancillary", key+":credentials", p.Pos(creds.Pos()), "the sender-specified credentials are sent whenever given", "credentials are attached under "+strings.Join(cc, " ∧ ")+" with argument "+describe(creds.Common().Args[0]))
 			// both are written into the buffer whose Bytes() is the oob argument; payload is the parameter
-			okBuf := stripConv(wr.Common().Args[1]) == ssa.Value(sm.Params[1]) && strings.Contains(describe(wr.Common().Args[2]), "Bytes(")
+			// (a bytes.Buffer written to and read with Bytes(), or a slice grown by append: decided by data flow)
+			oobArg := wr.Common().Args[2]
+			okBuf := stripConv(wr.Common().Args[1]) == ssa.Value(sm.Params[1]) && flowsIntoBytes(sm, rights.(ssa.Value), oobArg) && flowsIntoBytes(sm, creds.(ssa.Value), oobArg)
 			c.Cond(okBuf && len(extraConds(cd, wr.Block())) == 0 && errChecked(wr), "1/send-ancillary", key+":sendmsg", p.Pos(wr.Pos()), "payload and control buffer go out in one sendmsg whose error is returned", "the payload/control data are not passed to WriteMsgUnix unconditionally or its error is dropped")
 		}
 		c.Expect("1/send-ancillary", 3)
@@ -164,7 +166,7 @@ func checkC19(c *Check) {
 							if mc, isMC := df.Call.Value.(*ssa.MakeClosure); isMC {
 								cl := mc.Fn.(*ssa.Function)
 								// registered before any descriptor is taken out of the control data
-								if reachesCall(cl, 0, nameIs("syscall.Close")) {
+								if reachesCall(cl, 0, nameIs("syscall.Close")) || reachesCall(cl, 0, func(ci ssa.CallInstruction) bool { _, f := calleeOf(ci); return closesWholeList(f) }) {
 									dom := true
 									for _, c3 := range callInstrs(callee) {
 										if n3, _ := calleeOf(c3); n3 == "syscall.ParseUnixRights" && !(b == c3.Block() || b.Dominates(c3.Block())) {
@@ -479,7 +481,8 @@ func checkControlCloser(c *Check, fn *ssa.Function) {
 	cd := controlDeps(fn)
 	var cl ssa.CallInstruction
 	for _, ci := range callInstrs(fn) {
-		if n, _ := calleeOf(ci); n == "syscall.Close" {
+		n, callee := calleeOf(ci)
+		if n == "syscall.Close" || closesWholeList(callee) {
 			cl = ci
 		}
 	}
@@ -596,4 +599,91 @@ func checkFraming(c *Check) {
 		}
 		c.Cond(renewed, "5/encoder-typestate", key+":oversize-keeps-encoder", p.Pos(sm.Pos()), "a rejected encode discards the encoder", "after an oversize rejection the gob encoder is kept although its output was dropped: it has recorded the message's type descriptors as transmitted, so the peer cannot decode the next message of that type")
 	}
+}
+
+// closesWholeList: a helper of the module with one slice parameter that closes every element of it: its only loop
+// ranges over the parameter and calls syscall.Close on the element under no other condition.
+func closesWholeList(f *ssa.Function) bool {
+	if f == nil || len(f.Blocks) == 0 || !inModule(f) || len(f.Params) != 1 {
+		return false
+	}
+	if _, ok := f.Params[0].Type().Underlying().(*types.Slice); !ok {
+		return false
+	}
+	cd := controlDeps(f)
+	for _, ci := range callInstrs(f) {
+		if n, _ := calleeOf(ci); n != "syscall.Close" {
+			continue
+		}
+		if !inLoop(ci.Block()) || len(extraConds(cd, ci.Block())) != 0 {
+			continue
+		}
+		// the element closed comes from the parameter
+		d := describe(ci.Common().Args[0])
+		if strings.Contains(d, f.Params[0].Name()) {
+			// no return from inside the loop
+			for _, b := range f.Blocks {
+				if isExitBlock(b) {
+					for _, pr := range b.Preds {
+						if inLoop(pr) && !isLoopHeader(pr) {
+							return false
+						}
+					}
+				}
+			}
+			return true
+		}
+	}
+	return false
+}
+
+// flowsIntoBytes: the byte slice src (the result of a call) is part of what sink denotes: through φ-nodes,
+// re-slicing, append (either operand), and a bytes.Buffer that src is written to and sink is read from.
+func flowsIntoBytes(fn *ssa.Function, src, sink ssa.Value) bool {
+	seen := map[ssa.Value]bool{}
+	var dep func(v ssa.Value, d int) bool
+	dep = func(v ssa.Value, d int) bool {
+		if v == nil || seen[v] || d > 12 {
+			return false
+		}
+		seen[v] = true
+		if v == src {
+			return true
+		}
+		switch x := v.(type) {
+		case *ssa.Phi:
+			for _, e := range x.Edges {
+				if dep(e, d+1) {
+					return true
+				}
+			}
+		case *ssa.Slice:
+			return dep(x.X, d+1)
+		case *ssa.Convert:
+			return dep(x.X, d+1)
+		case *ssa.ChangeType:
+			return dep(x.X, d+1)
+		case *ssa.Call:
+			if bi, ok := x.Call.Value.(*ssa.Builtin); ok && bi.Name() == "append" {
+				for _, a := range x.Call.Args {
+					if dep(a, d+1) {
+						return true
+					}
+				}
+				return false
+			}
+			if n, _ := calleeOf(x); n == "(bytes.Buffer).Bytes" && len(x.Call.Args) == 1 {
+				recv := describe(x.Call.Args[0])
+				for _, ci := range callInstrs(fn) {
+					if n2, _ := calleeOf(ci); n2 == "(bytes.Buffer).Write" && len(ci.Common().Args) == 2 && describe(ci.Common().Args[0]) == recv {
+						if dep(ci.Common().Args[1], d+1) {
+							return true
+						}
+					}
+				}
+			}
+		}
+		return false
+	}
+	return dep(sink, 0)
 }
